@@ -6,11 +6,12 @@ FLOW_TB = [
 PROPS = {
     "C15": {
         "harness": "vh-flow",
-        "level_text": "Partial. Kernel-checked theorems for ALL programs of the fragment language F (locals with literal initialisers, literal reassignments, if/elseif/else, guards x, type(x)==/~=\"T\", x==/~=nil under any not/and/or nesting; no bound on size): narrow_sound (if execution reaches a probe with x=v, the type the model of get_type_at_flow infers there contains v, value-level for literal/boolean-constant types), its type()-level corollary, unreachable_sound (a probe typed never/unknown is never executed), and the per-operation obligations (remove_false_or_nil, narrow_false_or_nil, type-guard narrow/remove, ==nil intersect/remove, TypeOps::Union, assignment result). The model (flow graph of bind_analyze + the three-mode backward walk in forward form + the LuaType union algebra) is compared on every run with SemanticModel::infer_expr at every probe of generated programs (exact member lists, reached or not), its semantics with the luars VM trace, and independently every reached probe's VM runtime type must be included in the implementation's inferred type.",
+        "level_text": "Partial. Kernel-checked theorems for ALL programs of the fragment language F (locals with literal initialisers, literal reassignments x=<lit>, variable assignments x=y, if/elseif/else, guards x, type(x)==/~=\"T\", x==/~=nil, x==/~=<literal>, t_x==/~=\"T\" for a stored local t_x=type(x), under any not/and/or nesting; no bound on size), under the decidable side condition storedSafe (stored-type guards only on variables that are never assigned - the pinned tree violates the statement otherwise: open finding C15-stale-stored-type with C15_witness_stored): narrow_sound (if execution reaches a probe with x=v, the type the model of get_type_at_flow infers there contains v, value-level for literal/boolean-constant types), its type()-level corollary, unreachable_sound (a probe typed never/unknown is never executed), and the per-operation obligations (remove_false_or_nil, narrow_false_or_nil, type-guard narrow/remove, ==nil intersect/remove, TypeOps::Union, assignment result). The model (flow graph of bind_analyze + the three-mode backward walk in forward form + the LuaType union algebra) is compared on every run with SemanticModel::infer_expr at every probe of generated programs (exact member lists, reached or not), its semantics with the luars VM trace, and independently every reached probe's VM runtime type must be included in the implementation's inferred type.",
         "level_note": "Trusted: Lean kernel (axioms propext, Quot.sound, Classical.choice at most), harness + canonical type serialiser, the correspondence run as the tie (differential, not a proof about the Rust), luars as the execution oracle. Outside F and therefore search-only/not covered: loops (C41), functions/calls, member paths, casts, correlated multi-return conditions, doc-typed locals, the explicit-stack scheduler and its caches (the model evaluates each (variable,node,mode) query as a function).",
         "trusted_base": FLOW_TB,
         "assumptions": [
             "programs are in the fragment F (anything else is outside the theorem and only searched)",
+            "storedSafe: a guard on a stored `type(v)` is covered by the theorem only when v is never assigned (otherwise: open finding, search)",
             "a runtime value belongs to `unknown` is NOT assumed by the theorem (unknown has no members in the model); the implementation-side oracle uses the usual reading unknown/any = every value",
         ],
         "technique": "Lean 4 proof (structural induction over F with a three-mode soundness invariant) + differential correspondence + VM execution oracle",
@@ -18,11 +19,12 @@ PROPS = {
     },
     "C41": {
         "harness": "vh-flow",
-        "level_text": "Partial, and the pinned tree violates the full statement (three open known findings keyed by syntactic predicates of the input program). Kernel-checked: C41_witness (by decide: after `local k=nil; while not k do k='x' end` the model of bind_while_stat/get_type_at_flow infers `nil` at a probe the run reaches with a string) plus the witnesses for the generic-for exit and the missing back edge; C41_partial: for EVERY program of FL (F + while c / while true / repeat-until / numeric for with literal bounds / for-in / conditional break, any nesting, no size bound) whose loop bodies contain no assignment, every terminating run and every probe reached (inside bodies, on exit paths, after loops) has its value contained in the inferred type (induction on the fuel of the big-step semantics). The model of the loop binders is compared on every run with SemanticModel::infer_expr at every probe (exact member lists, including the programs inside the findings' predicates — the model reproduces the defects), its semantics with the luars VM and with a harness-side interpreter, and the property's oracle (VM runtime type in inferred type at every reached probe) runs on the implementation; failures count as known only when the program satisfies a listed predicate.",
+        "level_text": "Partial, and the pinned tree violates the full statement (three open known findings keyed by syntactic predicates of the input program). Kernel-checked: C41_witness (by decide: after `local k=nil; while not k do k='x' end` the model of bind_while_stat/get_type_at_flow infers `nil` at a probe the run reaches with a string) plus the witnesses for the generic-for exit and the missing back edge; C41_partial (per variable): for EVERY program of FL (F + while c / while true / repeat-until / numeric for with literal bounds / for-in / conditional break, any nesting, no size bound) and every set W of variables that contains the variables assigned in loop bodies and is closed under x=y, every terminating run and every probe of a variable outside W (inside bodies, on exit paths, after loops) has its value contained in the inferred type (induction on the fuel of the big-step semantics); loop bodies may assign the variables of W freely. C41_partial_inert is the W=empty case. The model of the loop binders is compared on every run with SemanticModel::infer_expr at every probe (exact member lists, including the programs inside the findings' predicates — the model reproduces the defects), its semantics with the luars VM and with a harness-side interpreter, and the property's oracle (VM runtime type in inferred type at every reached probe) runs on the implementation; failures count as known only when the program satisfies a listed predicate.",
         "level_note": "Trusted: Lean kernel, harness + serialisers, correspondence run as the tie, luars as execution oracle. Not covered by a theorem (search only): loops whose bodies assign variables (that is where the defect lives), `continue`, `goto`, numeric for with non-literal bounds, everything outside F (see C15).",
         "trusted_base": FLOW_TB,
         "assumptions": [
-            "theorem fragment: loop bodies contain no assignment; runs terminate within the fuel given (no bound on the fuel)",
+            "theorem covers the variables that no loop body assigns (and that receive no value from such a variable); runs terminate within the fuel given (no bound on the fuel)",
+            "diagnostics clause searched: after a break-free loop whose exit condition proves v non-nil, `v:upper()` that the VM executes must not get need-check-nil `v may be nil` / call-non-callable on never",
             "open findings C41-while-exit, C41-generic-for-exit, C41-no-back-edge suppress oracle failures only for programs that satisfy their syntactic predicate",
         ],
         "technique": "Lean 4 proof (witness by decide, partial soundness by induction on fuel) + differential correspondence + VM execution oracle",
